@@ -79,7 +79,7 @@ LEVEL = 'other'
 
 def run(rep, tier, seed, replay=None):
     res, changed = proof_stage(rep, 'C03', extra_trusted=[
-        'placement part only is proved; the rest of C03 (tree index errors, fr / flex loops, finiteness) is covered by the fuzz, not by theorems here',
+        'proved: grid placement totality, termination of the flex freeze loop / fr search / maximise distribution (restated from C07/C09), index errors leave the tree unchanged (restated from C14); NOT proved: absence of panics / non-finite outputs in the rest of compute_layout (fuzz only)',
         'modelled by hand (tied by K + fingerprints): placement.rs loops, CellOccupancyMatrix, compute_grid_size_estimate, the child filter of grid/mod.rs',
         'model Err classes <-> Rust behaviour: Overflow = arithmetic overflow panic (debug) / wrap (release); OutOfBounds = unwrap on None / Grid index assertion; '
         'NegativeExpansion = `min(start,0) as usize` count near 2^64 (overflow panic, capacity overflow, abort); OutOfFuel = search loop does not terminate'])
